@@ -465,6 +465,23 @@ func (f *Flat) SiteConsumed(r *Report, rule, cons string, fi *FuncInfo, s callSi
 		r.Hold(rule, cons, p.pos(s.Call), "error consumed on every path on which it may be non-nil")
 		return true
 	}
+	// the error may be handed to a helper of the package or to a local closure (skip := func(step string, err
+	// error) { failed = errors.Join(failed, ...) }): judged again on the graph with those spliced in
+	if f.Inl == nil && fi != nil && fi.Decl != nil && f.Body == fi.Decl.Body {
+		if g := p.FlatInl(fi); g != nil && len(g.Inl) > 0 {
+			if os.Getenv("FSDBCHECK_DEBUG") != "" {
+				fmt.Println("DEBUG fallback", cons, g.NodeContaining(s.Call))
+			}
+			if at := g.NodeContaining(s.Call); at >= 0 {
+				if bs := g.bindOf(g.Nodes[at], s.Call); bs.Kind == "assigned" && bs.ErrVar != nil {
+					if res2 := g.errorConsumed(fi, bs.Node, bs.ErrVar, o); res2.OK {
+						r.Hold(rule, cons, p.pos(s.Call), "error consumed on every path on which it may be non-nil (helpers and local closures spliced in)")
+						return true
+					}
+				}
+			}
+		}
+	}
 	r.Viol(rule, cons, p.pos(s.Call), res.Detail, res.Pos)
 	return false
 }
